@@ -21,11 +21,12 @@ type c14Sc struct {
 	PadKind string           `json:"pad_kind"` // text | comment
 	// AlignAt: additionally pad before one top-level segment so that the segment starts at these absolute
 	// offsets (values around powers of two and other round numbers: window / size-class edges)
-	AlignAt  []int    `json:"align_at,omitempty"`
-	AlignSeg int      `json:"align_seg,omitempty"`
-	ViaFS    bool     `json:"via_fs,omitempty"`       // templates come from a FileSystemLoader on the simulated disk instead of RegisterString
-	Size     *c14Size `json:"size,omitempty"`         // structure-size leg (see prop_c14_size.go)
-	ViaComp  bool     `json:"via_compiled,omitempty"` // templates are compiled and serialised on one engine and reach the rendering engine as bytes
+	AlignAt   []int    `json:"align_at,omitempty"`
+	AlignSeg  int      `json:"align_seg,omitempty"`
+	ViaFS     bool     `json:"via_fs,omitempty"`       // templates come from a FileSystemLoader on the simulated disk instead of RegisterString
+	InnerSeed uint64   `json:"inner_seed,omitempty"`   // != 0: inner-insertion leg, points chosen by this seed
+	Size      *c14Size `json:"size,omitempty"`         // structure-size leg (see prop_c14_size.go)
+	ViaComp   bool     `json:"via_compiled,omitempty"` // templates are compiled and serialised on one engine and reach the rendering engine as bytes
 }
 
 type propC14 struct{}
@@ -60,7 +61,8 @@ func (propC14) Gen(seed uint64, ex map[string]bool) interface{} {
 	extras := []string{
 		"{{ \"}\" ~ '}' }}", "{{ \"%}\" ~ '{{' }}", "{% set q = '%' ~ '}' %}{{ q }}", "{# {{ }} {% %} #}", "{#- c -#}", "é{{ s1 }}日", "{{s1}}{{n1}}",
 		"{%- if b1 %} x {% endif -%}", "{% if b1 -%} x {% endif %}", "  {{- s1 -}}  ", "{% verbatim %}{{ v }}{% endverbatim %}", "{ { } } % %", "{{ s1 }}\n\n{{- n1 }}", "\\{{ s1 }}", "{{ '\\'' }}",
-		"{{ {'a': '}'}|json_encode }}", "{%if b1%}y{%endif%}", "{{\ns1\n}}", "{{ s1|default('{%') }}",
+		"{{ {'a': '}'}|json_encode }}", "{%if b1%}y{%endif%}",
+		"{% for x9 in sl %}{{ x9 }}{% endfor %}[{{ x9 }}{{ loop.index }}]", "{% for k9, v9 in m2 %}{{ v9 }}{% endfor %}[{{ k9 }}]", "{% if b1 %}{{ s1 }}{% endif %}", "{% for x9 in il %}.{% endfor %}", "{{\ns1\n}}", "{{ s1|default('{%') }}",
 	}
 	for ti := range p.Templates {
 		if p.Templates[ti].Name != p.Main {
@@ -104,6 +106,9 @@ func (propC14) Gen(seed uint64, ex map[string]bool) interface{} {
 			rest[i], rest[j] = rest[j], rest[i]
 		}
 		sc.Knobs = append(keep, rest[:4]...)
+	}
+	if r.P(45) {
+		sc.InnerSeed = uint64(r.N(1<<30)) + 1
 	}
 	if r.P(40) {
 		z := &c14Size{Family: r.N(c14SizeFamilies), Var: r.N(7)}
@@ -314,6 +319,13 @@ func (propC14) Run(scI interface{}) *Outcome {
 					Detail: fmt.Sprintf("main template %q\n Render:   %s\n RenderTo: %s", tail(mainSrc, 400), tail(base.Out, 300), tail(got.Out, 300)+" "+got.Err)}
 				return o
 			}
+		}
+	}
+	if sc.InnerSeed != 0 {
+		if v := c14InnerLeg(sc, base, mainSrc, o, &fp); v != nil {
+			o.FP = fp
+			o.Viol = v
+			return o
 		}
 	}
 	if sc.Size != nil {
